@@ -484,6 +484,14 @@ pub fn gen_text(rng: &mut Rng, pool: &Pool, cfg: &GenCfg, nwords: usize) -> Stri
             }
         }
         s.push_str(&t.text);
+        // something glued to the end of a word: a digit, a letter of another script, a mark
+        if exotic_pct > 0 && rng.chance(exotic_pct, 200) {
+            if rng.chance(1, 2) {
+                s.push((b'0' + rng.below(10) as u8) as char);
+            } else {
+                s.push_str(rng.word(&EXOTIC));
+            }
+        }
     }
     if rng.chance(1, 4) {
         s.push_str(rng.word(&SEPS));
